@@ -24,7 +24,8 @@ type propSpec struct {
 	Assume   []string
 	Real     []string
 	Stub     []string
-	MinCells int // thorough: required number of distinct grid cells (0: none)
+	MinCells int               // thorough: required number of distinct grid cells (0: none)
+	QuickOpt map[string]string // extra scenario options in the quick tier
 }
 
 func (p *propSpec) scenNames() string {
@@ -61,10 +62,10 @@ var props = []*propSpec{
 		Scens:  []scenSpec{{Name: "upload", Weight: 3}, {Name: "read", Weight: 1}},
 		QuickS: 45, ThorS: 900, Rule: ruleCommon},
 	{ID: "C03", Level: "exploration", Clauses: []string{"C03."},
-		Scens:  []scenSpec{{Name: "conc", Weight: 1}},
+		Scens:  []scenSpec{{Name: "conc", Weight: 3}, {Name: "upload", Weight: 1}, {Name: "backend", Weight: 1}, {Name: "lru", Weight: 1}, {Name: "hardlimit", Weight: 1}, {Name: "hostile", Weight: 1}},
 		QuickS: 40, ThorS: 600, Rule: ruleCommon},
 	{ID: "C04", Level: "fault_enumeration", Clauses: []string{"C04."},
-		Scens:  []scenSpec{{Name: "conc", Weight: 1}},
+		Scens:  []scenSpec{{Name: "conc", Weight: 3}, {Name: "upload", Weight: 2}, {Name: "backend", Weight: 1}, {Name: "lru", Weight: 1}, {Name: "hostile", Weight: 1}},
 		QuickS: 40, ThorS: 600, Rule: ruleCommon},
 	{ID: "C07", Level: "exploration", Clauses: []string{"C07.", "C03.", "C04.", "C14.fds", "C02.prefix"},
 		Scens:  []scenSpec{{Name: "conc", Weight: 1}},
@@ -96,7 +97,7 @@ func init() {
 	props = append(props, &propSpec{ID: "C11", Level: "exploration", Clauses: []string{"C11."},
 		Scens:  []scenSpec{{Name: "ac", Weight: 1}},
 		QuickS: 40, ThorS: 600, Rule: ruleCommon})
-	props = append(props, &propSpec{ID: "C12", Level: "fault_enumeration", Clauses: []string{"C12.", "C14.panic"},
+	props = append(props, &propSpec{ID: "C12", Level: "fault_enumeration", Clauses: []string{"C12.", "C14.panic", "C03.", "C04."},
 		Scens:  []scenSpec{{Name: "backend", Weight: 2}, {Name: "backend2", Weight: 1, Batch: 15}},
 		QuickS: 50, ThorS: 900, Rule: ruleCommon})
 	props = append(props, &propSpec{ID: "C09", Level: "exploration", Clauses: []string{"C09.", "C03.", "C04."},
@@ -113,8 +114,8 @@ func init() {
 		Scens:  []scenSpec{{Name: "crash", Opt: map[string]string{"enum": "1"}, Weight: 3, Batch: 2}, {Name: "crash", Weight: 1, Batch: 30}},
 		QuickS: 50, ThorS: 900,
 		Rule: "plans (pre-population + 1-2 victim tasks of 1-2 uploads/overwrites) are generated from VERIF_SEED; for each enumerated plan the victim phase is first run without a kill to count its N scheduling steps and then once per step i in 1..N with the process killed before step i (evaluations counts runs; coverage.crash_points the sub-runs); a run is non-trivial if a kill landed while an upload was in flight or a preemption happened; distinct = distinct schedule/outcome hash"})
-	props = append(props, &propSpec{ID: "C18", Level: "exploration", Clauses: []string{"C18."},
-		Scens:  []scenSpec{{Name: "upload", Opt: map[string]string{"limits": "1"}, Weight: 1}},
+	props = append(props, &propSpec{ID: "C18", Level: "exploration", Clauses: []string{"C18.", "C10.proxy-limit"},
+		Scens:  []scenSpec{{Name: "upload", Opt: map[string]string{"limits": "1"}, Weight: 3}, {Name: "backend", Weight: 2}, {Name: "fmb", Weight: 1}, {Name: "backend2", Weight: 1, Batch: 15}},
 		QuickS: 40, ThorS: 600, Rule: ruleCommon})
 }
 
